@@ -1,12 +1,21 @@
 // Package c14: distance matrices and length-threshold clusters.
+//
+// Library ops (real code: tree.ToDistanceMatrix, tree.AvgDistanceMatrix, tree.CutEdgesMaxLength):
+//
+//	C14.matrix  metric  dump            | tips  matrix
+//	C14.avg     metric  dump|dump|…     | ok/err/panic:…  tips  matrix
+//	C14.cut     thr     dump            | ok/err/panic:…  bags (Go's bag order, each bag as Tips() lists it)
+//
+// CLI ops (real binary: cmd/matrix.go, cmd/brlencut.go; see cli.go):
+//
+//	C14.climatrix  -m value  avg  outmode  dumps|!|…/NOFILE | exit  bytes written
+//	C14.clicut     omit|v:value  outmode  dumps/NOFILE      | exit  bytes written
 package c14
 
 import (
 	"fmt"
-	"math/big"
-	"sort"
+	"strconv"
 	"strings"
-	"time"
 
 	"verifharness/core"
 
@@ -23,6 +32,26 @@ func names(ns []*tree.Node) []string {
 	return out
 }
 
+func metricName(metric int) string {
+	if metric >= 0 && metric < 3 {
+		return metricNames[metric]
+	}
+	return fmt.Sprintf("int:%d", metric)
+}
+
+func metricIndex(s string) int {
+	for i, m := range metricNames {
+		if m == s {
+			return i
+		}
+	}
+	if strings.HasPrefix(s, "int:") {
+		n, _ := strconv.Atoi(s[4:])
+		return n
+	}
+	return 0
+}
+
 func opts(g *core.G) core.TreeOpts {
 	o := core.DefaultOpts()
 	o.Lengths = 2
@@ -33,78 +62,19 @@ func opts(g *core.G) core.TreeOpts {
 	if g.Chance(0.1) {
 		o.MinTips, o.MaxTips = 2, 3
 	}
+	if g.Chance(0.05) {
+		o.MinTips, o.MaxTips = 13, 30 // beyond the insertion-sort region of sort.Slice
+	}
+	if g.Chance(0.08) {
+		o.Supports = 0 // no support anywhere: the boot metric counts 1 per branch
+	}
+	if g.Chance(0.08) {
+		o.Lengths = 0 // no length anywhere
+	}
 	return o
 }
 
-func metricIndex(s string) int {
-	for i, m := range metricNames {
-		if m == s {
-			return i
-		}
-	}
-	return 0
-}
-
-// Replay re-executes the requests of a corpus / replay file on the real code.
-func Replay(c *core.Ctx, lines []string) {
-	for _, l := range lines {
-		f := strings.Split(l, "\t")
-		switch {
-		case f[0] == "C14.matrix" && len(f) >= 3:
-			n, err := core.ParseDump(f[2])
-			if err != nil {
-				panic(err)
-			}
-			doMatrix(c, false, metricIndex(f[1]), n)
-		case f[0] == "C14.cut" && len(f) >= 3:
-			n, err := core.ParseDump(f[2])
-			if err != nil {
-				panic(err)
-			}
-			thr, _ := core.ParseRat(f[1])
-			doCut(c, false, thr, n)
-		case f[0] == "C14.avg" && len(f) >= 3:
-			var ns []*core.N
-			for _, d := range strings.Split(strings.TrimSuffix(f[2], "|"), "|") {
-				n, err := core.ParseDump(d)
-				if err != nil {
-					panic(err)
-				}
-				ns = append(ns, n)
-			}
-			doAvg(c, metricIndex(f[1]), ns)
-		}
-	}
-}
-
-// Run generates the cases of C14.
-func Run(c *core.Ctx) {
-	if c.Arg != "" {
-		Replay(c, core.ReadRequests(c.Arg))
-		return
-	}
-	n := c.Scale(600, 20000)
-	for i := 0; i < n; i++ {
-		switch {
-		case i%3 == 0:
-			matrixCase(c, false)
-		case i%3 == 1:
-			cutCase(c, false)
-		default:
-			avgCase(c)
-		}
-	}
-	if c.Gotree != "" {
-		m := c.Scale(30, 600)
-		for i := 0; i < m; i++ {
-			if i%2 == 0 {
-				matrixCase(c, true)
-			} else {
-				cutCase(c, true)
-			}
-		}
-	}
-}
+// ---- degenerate shapes -------------------------------------------------------------------------------------
 
 // rootAtTip re-presents the tree with one of the root's leaf children as the root: a root
 // with a single neighbour that is itself a tip (what `Reroot` on a tip's branch, `UnRoot` on a
@@ -125,100 +95,305 @@ func rootAtTip(g *core.G, n *core.N) *core.N {
 	}
 	i := idx[g.Intn(len(idx))]
 	leaf := n.Kids[i]
-	inner := &core.N{Name: n.Name, Comments: n.Comments, PPos: 0, E: leaf.E}
+	inner := &core.N{Name: n.Name, Comments: n.Comments, PPos: g.Intn(len(n.Kids)), E: leaf.E}
 	inner.Kids = append(inner.Kids, n.Kids[:i]...)
 	inner.Kids = append(inner.Kids, n.Kids[i+1:]...)
 	return &core.N{Name: leaf.Name, Comments: leaf.Comments, Kids: []*core.N{inner}}
 }
 
-func matrixCase(c *core.Ctx, cli bool) {
-	o := opts(c.G)
-	if cli {
-		o.Singles = 0
-		o.MinTips = 3
+func leavesOf(n *core.N) []*core.N {
+	var out []*core.N
+	var rec func(x *core.N, root bool)
+	rec = func(x *core.N, root bool) {
+		if len(x.Kids) == 0 && !root {
+			out = append(out, x)
+		}
+		for _, k := range x.Kids {
+			rec(k, false)
+		}
 	}
-	n, _ := c.G.Tree(o)
-	if !cli && c.G.Chance(0.12) {
-		n = rootAtTip(c.G, n)
-	}
-	metric := c.G.Intn(3)
-	doMatrix(c, cli, metric, n)
+	rec(n, true)
+	return out
 }
 
-func doMatrix(c *core.Ctx, cli bool, metric int, n *core.N) {
+var lookalikes = []string{"1", "01", "001", "10", "1.0", "1e0", "2", "02", "+1", "1 "}
+
+// degenerate applies, with small probabilities, the shapes DESIGN Appendix C and ROUND2 name:
+// tip root, two tips (also as a single branch between two tips), duplicate names, look-alike
+// names, shuffled parent positions, supports on tip branches.  cli = the tree must survive Newick.
+func degenerate(g *core.G, n *core.N, cli bool) *core.N {
+	switch r := g.Intn(100); {
+	case r < 12:
+		n = rootAtTip(g, n)
+	case r < 15: // one branch joining two tips: the root is a tip, so is its only neighbour
+		e := core.NewE()
+		e.Len = float64(g.Intn(20)) / 8
+		n = &core.N{Name: "ta", Kids: []*core.N{{Name: "tb", E: e}}}
+	case r < 18: // a tip root above a cherry
+		e, e1, e2 := core.NewE(), core.NewE(), core.NewE()
+		e.Len, e1.Len, e2.Len = float64(g.Intn(20))/8, float64(g.Intn(20))/8, -1
+		n = &core.N{Name: "t0", Kids: []*core.N{{E: e, Kids: []*core.N{{Name: "t1", E: e1}, {Name: "t2", E: e2}}}}}
+	}
+	lv := leavesOf(n)
+	if len(lv) >= 2 {
+		switch r := g.Intn(100); {
+		case r < 6: // duplicate tip name (outside the quantifier: the driver only ties)
+			a, b := g.Intn(len(lv)), g.Intn(len(lv))
+			if a != b {
+				lv[a].Name = lv[b].Name
+			}
+		case r < 16: // look-alike names
+			perm := g.R.Perm(len(lookalikes))
+			for i, l := range lv {
+				if i < len(perm) && g.Chance(0.7) {
+					nm := lookalikes[perm[i]]
+					if cli {
+						nm = strings.TrimSpace(strings.TrimPrefix(nm, "+"))
+						if nm == "1" && i > 0 {
+							nm = "100"
+						}
+					}
+					l.Name = nm
+				}
+			}
+			// keep the names unique
+			seen := map[string]bool{}
+			for i, l := range leavesOf(n) {
+				if seen[l.Name] {
+					l.Name = fmt.Sprintf("%s_%d", l.Name, i)
+				}
+				seen[l.Name] = true
+			}
+			if len(n.Kids) == 1 && seen[n.Name] {
+				n.Name = n.Name + "_r"
+			}
+		}
+	}
+	if !cli && g.Chance(0.2) {
+		// parent positions: where the parent sits in neigh (the walks skip it wherever it is)
+		var rec func(x *core.N, root bool)
+		rec = func(x *core.N, root bool) {
+			if !root && len(x.Kids) > 0 {
+				x.PPos = g.Intn(len(x.Kids) + 1)
+			}
+			for _, k := range x.Kids {
+				rec(k, false)
+			}
+		}
+		rec(n, true)
+	}
+	if !cli && g.Chance(0.1) {
+		for _, l := range lv {
+			if g.Chance(0.5) {
+				l.E.Sup = float64(g.Intn(17)) / 16 // a support on a tip branch: the boot metric reads it
+			}
+		}
+	}
+	return n
+}
+
+// ---- replay ------------------------------------------------------------------------------------------------
+
+// Replay re-executes the requests of a corpus / replay file on the real code.
+func Replay(c *core.Ctx, lines []string) {
+	for _, l := range lines {
+		f := strings.Split(l, "\t")
+		switch {
+		case f[0] == "C14.matrix" && len(f) >= 3:
+			n, err := core.ParseDump(f[2])
+			if err != nil {
+				panic(err)
+			}
+			doMatrix(c, metricIndex(f[1]), n)
+		case f[0] == "C14.cut" && len(f) >= 3:
+			n, err := core.ParseDump(f[2])
+			if err != nil {
+				panic(err)
+			}
+			thr, _ := core.ParseRat(f[1])
+			doCut(c, thr, n)
+		case f[0] == "C14.avg" && len(f) >= 3:
+			var ns []*core.N
+			for _, d := range strings.Split(strings.TrimSuffix(f[2], "|"), "|") {
+				if d == "" {
+					continue
+				}
+				n, err := core.ParseDump(d)
+				if err != nil {
+					panic(err)
+				}
+				ns = append(ns, n)
+			}
+			doAvg(c, metricIndex(f[1]), ns)
+		case f[0] == "C14.hmatrix" && len(f) >= 4:
+			n, err := core.ParseDump(f[2])
+			if err != nil {
+				panic(err)
+			}
+			hs, _ := strconv.ParseInt(f[3], 10, 64)
+			doHMatrix(c, metricIndex(f[1]), n, hs)
+		case f[0] == "C14.hcut" && len(f) >= 4:
+			n, err := core.ParseDump(f[2])
+			if err != nil {
+				panic(err)
+			}
+			thr, _ := core.ParseRat(f[1])
+			hs, _ := strconv.ParseInt(f[3], 10, 64)
+			doHCut(c, thr, n, hs)
+		case f[0] == "C14.havg" && len(f) >= 4:
+			var ns []*core.N
+			for _, d := range strings.Split(strings.TrimSuffix(f[2], "|"), "|") {
+				if d == "" {
+					continue
+				}
+				n, err := core.ParseDump(d)
+				if err != nil {
+					panic(err)
+				}
+				ns = append(ns, n)
+			}
+			hs, _ := strconv.ParseInt(f[3], 10, 64)
+			doHAvg(c, metricIndex(f[1]), ns, hs)
+		case f[0] == "C14.climatrix" && len(f) >= 5:
+			if c.Gotree == "" {
+				continue
+			}
+			mflag, _ := core.Unescape(f[1])
+			doCliMatrix(c, mflag, f[2] == "1", f[3], textOfDumps(f[4]), strings.HasPrefix(f[4], "NOFILE"))
+		case f[0] == "C14.clicut" && len(f) >= 4:
+			if c.Gotree == "" {
+				continue
+			}
+			lflag, _ := core.Unescape(f[1])
+			doCliCut(c, lflag, f[2], textOfDumps(f[3]), strings.HasPrefix(f[3], "NOFILE"))
+		}
+	}
+}
+
+// Run generates the cases of C14.
+func Run(c *core.Ctx) {
+	if c.Arg != "" {
+		Replay(c, core.ReadRequests(c.Arg))
+		return
+	}
+	n := c.Scale(600, 30000)
+	for i := 0; i < n; i++ {
+		switch {
+		case i%3 == 0:
+			matrixCase(c)
+		case i%3 == 1:
+			cutCase(c)
+		default:
+			avgCase(c)
+		}
+	}
+	smallCutOrders(c, !c.Quick())
+	if c.Gotree != "" {
+		m := c.Scale(160, 5000)
+		for i := 0; i < m; i++ {
+			if i%2 == 0 {
+				cliMatrixCase(c)
+			} else {
+				cliCutCase(c)
+			}
+		}
+	}
+}
+
+// ---- library ops -------------------------------------------------------------------------------------------
+
+func matrixCase(c *core.Ctx) {
+	n, _ := c.G.Tree(opts(c.G))
+	n = degenerate(c.G, n, false)
+	metric := c.G.Intn(3)
+	if c.G.Chance(0.06) {
+		metric = []int{3, -1, 7, 100}[c.G.Intn(4)] // "all other values will be considered as BRLEN"
+	}
+	if c.G.Chance(0.25) {
+		doHMatrix(c, metric, n, int64(c.G.Intn(1<<30)))
+		return
+	}
+	doMatrix(c, metric, n)
+}
+
+func doMatrix(c *core.Ctx, metric int, n *core.N) {
 	t, err := core.Build(n)
 	if err != nil {
 		panic(err)
 	}
-	if cli {
-		file := c.TmpFile(t.Newick() + "\n")
-		mname := map[int]string{0: "brlen", 1: "boot", 2: "none"}[metric]
-		r := c.RunCLI("", 20*time.Second, "matrix", "-i", file, "-m", mname)
-		tips, mat, ok := parsePhylip(r.Stdout)
-		if r.Exit != 0 || !ok {
-			c.Emit("C14.matrix", metricNames[metric], n.Dump(), "CLIFAIL,", "")
-			return
-		}
-		c.Emit("C14.matrix", metricNames[metric], n.Dump(), core.StrList(tips), mat)
-		return
-	}
 	var mat [][]float64
 	var tips []*tree.Node
 	if p, msg := core.Safe(func() { mat, tips = t.ToDistanceMatrix(metric) }); p {
-		c.Emit("C14.matrix", metricNames[metric], n.Dump(), "PANIC,"+core.Escape(msg)+",", "")
+		c.Emit("C14.matrix", metricName(metric), n.Dump(), "PANIC,"+core.Escape(msg)+",", "")
 		return
 	}
-	c.Emit("C14.matrix", metricNames[metric], n.Dump(), core.StrList(names(tips)), core.RatMatrix(mat))
-}
-
-// parsePhylip reads the output of `gotree matrix` into exact rationals.
-func parsePhylip(s string) ([]string, string, bool) {
-	lines := strings.Split(strings.TrimRight(s, "\n"), "\n")
-	if len(lines) < 1 {
-		return nil, "", false
-	}
-	var tips []string
-	var b strings.Builder
-	for _, l := range lines[1:] {
-		f := strings.Split(l, "\t")
-		tips = append(tips, f[0])
-		for _, v := range f[1:] {
-			r := new(big.Rat)
-			if _, ok := r.SetString(v); !ok {
-				return nil, "", false
-			}
-			b.WriteString(r.RatString())
-			b.WriteByte(',')
-		}
-		b.WriteByte(';')
-	}
-	return tips, b.String(), true
+	c.Emit("C14.matrix", metricName(metric), n.Dump(), core.StrList(names(tips)), core.RatMatrix(mat))
 }
 
 func avgCase(c *core.Ctx) {
 	o := opts(c.G)
-	o.Singles = 0
 	o.MinTips = 3
-	k := 1 + c.G.Intn(4)
-	first, _ := c.G.Tree(o)
-	ns := []*core.N{first}
-	ntips := len(first.TipNames())
-	mismatch := c.G.Chance(0.15)
-	for i := 1; i < k; i++ {
-		o2 := o
-		o2.MinTips, o2.MaxTips = ntips, ntips
-		if mismatch && i == k-1 {
-			o2.TipPrefix = "u"
+	if o.MaxTips < o.MinTips {
+		o.MaxTips = o.MinTips
+	}
+	if o.MaxTips > 12 {
+		o.MinTips, o.MaxTips = 3, 12
+	}
+	k := 1 + c.G.Intn(5)
+	if c.G.Chance(0.04) {
+		k = 0
+	}
+	var ns []*core.N
+	if k > 0 {
+		first, _ := c.G.Tree(o)
+		if c.G.Chance(0.15) {
+			first = rootAtTip(c.G, first)
 		}
-		x, _ := c.G.Tree(o2)
-		ns = append(ns, x)
+		ns = append(ns, first)
+		ntips := len(first.TipNames())
+		mismatch := c.G.Chance(0.15)
+		for i := 1; i < k; i++ {
+			o2 := o
+			o2.MinTips, o2.MaxTips = ntips, ntips
+			kind := c.G.Intn(3) // how the odd tree differs: every name / one name / the number of tips
+			if mismatch && i == k-1 {
+				switch {
+				case kind == 0:
+					o2.TipPrefix = "u"
+				case kind == 2 && ntips > 3 && c.G.Chance(0.5):
+					o2.MinTips, o2.MaxTips = ntips-1, ntips-1
+				case kind == 2:
+					o2.MinTips, o2.MaxTips = ntips+1, ntips+1
+				}
+			}
+			x, _ := c.G.Tree(o2)
+			if c.G.Chance(0.15) {
+				x = rootAtTip(c.G, x)
+			}
+			if mismatch && i == k-1 && kind == 1 {
+				// same number of tips, ONE taxon differs; its name sorts last, first or in the middle
+				lv := leavesOf(x)
+				l := lv[c.G.Intn(len(lv))]
+				l.Name = []string{"zz", "a", l.Name + "x"}[c.G.Intn(3)]
+			}
+			ns = append(ns, x)
+		}
+		if mismatch && k >= 2 && c.G.Chance(0.3) {
+			// the odd tree in the middle, not last
+			j := 1 + c.G.Intn(k-1)
+			ns[j], ns[k-1] = ns[k-1], ns[j]
+		}
 	}
 	metric := c.G.Intn(3)
+	if c.G.Chance(0.2) {
+		doHAvg(c, metric, ns, int64(c.G.Intn(1<<30)))
+		return
+	}
 	doAvg(c, metric, ns)
 }
 
 func doAvg(c *core.Ctx, metric int, ns []*core.N) {
-	ch := make(chan tree.Trees, len(ns))
+	ch := make(chan tree.Trees, len(ns)+1)
 	for i, n := range ns {
 		t, err := core.Build(n)
 		if err != nil {
@@ -231,28 +406,18 @@ func doAvg(c *core.Ctx, metric int, ns []*core.N) {
 	var tips []*tree.Node
 	var err error
 	if p, msg := core.Safe(func() { mat, tips, err = tree.AvgDistanceMatrix(metric, ch) }); p {
-		c.Emit("C14.avg", metricNames[metric], core.Dumps(ns), "panic:"+core.Escape(msg), "", "")
+		c.Emit("C14.avg", metricName(metric), core.Dumps(ns), "panic:"+core.Escape(msg), "", "")
 		return
 	}
 	if err != nil {
-		c.Emit("C14.avg", metricNames[metric], core.Dumps(ns), "err", "", "")
+		c.Emit("C14.avg", metricName(metric), core.Dumps(ns), "err", "", "")
 		return
 	}
-	c.Emit("C14.avg", metricNames[metric], core.Dumps(ns), "ok", core.StrList(names(tips)), core.RatMatrix(mat))
+	c.Emit("C14.avg", metricName(metric), core.Dumps(ns), "ok", core.StrList(names(tips)), core.RatMatrix(mat))
 }
 
-func cutCase(c *core.Ctx, cli bool) {
-	o := opts(c.G)
-	o.Lengths = 2
-	if cli {
-		o.Singles = 0
-		o.MinTips = 3
-	}
-	n, _ := c.G.Tree(o)
-	if !cli && c.G.Chance(0.15) {
-		n = rootAtTip(c.G, n)
-	}
-	// threshold drawn from the values present (ties), or in between
+// threshold drawn from the values present (ties), in between, or one of the special values
+func drawThreshold(g *core.G, n *core.N, o core.TreeOpts) float64 {
 	var lens []float64
 	var rec func(x *core.N)
 	rec = func(x *core.N) {
@@ -264,37 +429,37 @@ func cutCase(c *core.Ctx, cli bool) {
 		}
 	}
 	rec(n)
-	thr := float64(c.G.Intn(o.LenMax)) / float64(o.LenDenom)
-	if len(lens) > 0 && c.G.Chance(0.6) {
-		thr = lens[c.G.Intn(len(lens))]
-		if c.G.Chance(0.3) {
+	thr := float64(g.Intn(o.LenMax)) / float64(o.LenDenom)
+	if len(lens) > 0 && g.Chance(0.6) {
+		thr = lens[g.Intn(len(lens))]
+		if g.Chance(0.3) {
 			thr += 1.0 / 16
 		}
 	}
-	doCut(c, cli, thr, n)
+	if g.Chance(0.06) {
+		thr = []float64{0, -1, -0.5, 1000}[g.Intn(4)] // 0: zero lengths are long, absent ones short; -1: absent ones long too
+	}
+	return thr
 }
 
-func doCut(c *core.Ctx, cli bool, thr float64, n *core.N) {
+func cutCase(c *core.Ctx) {
+	o := opts(c.G)
+	if o.Lengths == 0 && c.G.Chance(0.5) {
+		o.Lengths = 2
+	}
+	n, _ := c.G.Tree(o)
+	n = degenerate(c.G, n, false)
+	if c.G.Chance(0.2) {
+		doHCut(c, drawThreshold(c.G, n, o), n, int64(c.G.Intn(1<<30)))
+		return
+	}
+	doCut(c, drawThreshold(c.G, n, o), n)
+}
+
+func doCut(c *core.Ctx, thr float64, n *core.N) {
 	t, err := core.Build(n)
 	if err != nil {
 		panic(err)
-	}
-	if cli {
-		file := c.TmpFile(t.Newick() + "\n")
-		r := c.RunCLI("", 20*time.Second, "brlen", "cut", "-i", file, "-l", fmt.Sprintf("%v", thr))
-		if r.Exit != 0 {
-			c.Emit("C14.cut", core.Rat(thr), n.Dump(), "clifail", "")
-			return
-		}
-		var bags [][]string
-		for _, l := range strings.Split(strings.TrimRight(r.Stdout, "\n"), "\n") {
-			f := strings.Split(l, "\t")
-			if len(f) == 3 {
-				bags = append(bags, strings.Split(f[2], ","))
-			}
-		}
-		c.Emit("C14.cut", core.Rat(thr), n.Dump(), "ok", core.StrLists(bags))
-		return
 	}
 	var bags []*tree.TipBag
 	if p, msg := core.Safe(func() { bags, err = t.CutEdgesMaxLength(thr) }); p {
@@ -308,7 +473,9 @@ func doCut(c *core.Ctx, cli bool, thr float64, n *core.N) {
 	var out [][]string
 	for _, b := range bags {
 		nm := names(b.Tips())
-		sort.Strings(nm)
+		if len(nm) != b.Size() {
+			nm = append(nm, fmt.Sprintf("SIZE=%d", b.Size()))
+		}
 		out = append(out, nm)
 	}
 	c.Emit("C14.cut", core.Rat(thr), n.Dump(), "ok", core.StrLists(out))
